@@ -57,8 +57,19 @@ def reported_matching(c):
     return M
 
 
+LARGE = {'quick': dict(n1=8, n2=13, n2min=10, n3=5, lmax=6),
+         'thorough': dict(n1=12, n2=24, n2min=10, n3=8, lmax=8)}
+
+
 @st.composite
-def lp_cases(draw, tier, cbc_pct=8, inst_kw=None, opt_kw=None, sizes=None):
+def lp_cases(draw, tier, cbc_pct=8, inst_kw=None, opt_kw=None, sizes=None, large_pct=0):
+    if large_pct and pct(draw) < large_pct:
+        # two-digit ids, long lists: only oracles that need no enumeration apply (real CBC)
+        salt = draw(strategies.salts)
+        inst = draw(strategies.instances(LARGE[tier], **(inst_kw or {})))
+        opts = draw(strategies.option_sets(inst, **(opt_kw or {})))
+        return {'inst': inst, 'opts': opts, 'choices': [], 'mode': 'cbc', 'salt': salt,
+                'large': True}
     sizes = sizes or strategies.SIZES[tier]
     # mixture knobs are drawn first: Hypothesis' generation-time mutation skews
     # draws that come late in a long choice sequence (measured; see DESIGN.md 2.2)
